@@ -102,15 +102,48 @@ fn c18_encoder_kernel_every_byte_value() {
 
 // @prop C18
 // @fn TrackerClient::create_url, url::form_urlencoded::byte_serialize
-// @bound announce urls "http://t/a" and "http://t/a?k=v"; 4 concrete hashes of a 13-member family that together contains every byte value (members 0, 1, 2, 12: NUL, control bytes, space, '%', '&', '+', digits, 0xF0..0xFF)
+// @bound announce url "http://t/a"; concrete hash number 0 of a 13-member family that together contains every byte value (bytes 0..19: NUL and control bytes)
 // @outside symbolic hashes (see c18_encoder_kernel_every_byte_value); what reqwest/url do with the string afterwards (peer_id, port, left parameters; host/path parsing) is not encoded
 // @desc the request url is the announce url kept verbatim, '?' (or '&' when the announce url already has a query), "info_hash=", and a value that percent-decodes to exactly the 20 hash bytes
 #[kani::proof]
 #[kani::unwind(22)]
-fn c18_url_assembly_concrete_family_quick() {
+fn c18_url_assembly_family_member_0() {
     url_for("http://t/a", b'?', family_hash(0));
+    kani::cover!(true, "reached");
+}
+
+// @prop C18
+// @fn TrackerClient::create_url, url::form_urlencoded::byte_serialize
+// @bound announce url "http://t/a"; concrete hash number 1 of a 13-member family that together contains every byte value (bytes 20..39: space, '#', '%', '&')
+// @outside symbolic hashes (see c18_encoder_kernel_every_byte_value); what reqwest/url do with the string afterwards (peer_id, port, left parameters; host/path parsing) is not encoded
+// @desc the request url is the announce url kept verbatim, '?' (or '&' when the announce url already has a query), "info_hash=", and a value that percent-decodes to exactly the 20 hash bytes
+#[kani::proof]
+#[kani::unwind(22)]
+fn c18_url_assembly_family_member_1() {
     url_for("http://t/a", b'?', family_hash(1));
+    kani::cover!(true, "reached");
+}
+
+// @prop C18
+// @fn TrackerClient::create_url, url::form_urlencoded::byte_serialize
+// @bound announce url "http://t/a?k=v"; concrete hash number 2 of a 13-member family that together contains every byte value (bytes 40..59: '*', '+', '-', '.', digits; announce url with an existing query)
+// @outside symbolic hashes (see c18_encoder_kernel_every_byte_value); what reqwest/url do with the string afterwards (peer_id, port, left parameters; host/path parsing) is not encoded
+// @desc the request url is the announce url kept verbatim, '?' (or '&' when the announce url already has a query), "info_hash=", and a value that percent-decodes to exactly the 20 hash bytes
+#[kani::proof]
+#[kani::unwind(22)]
+fn c18_url_assembly_family_member_2() {
     url_for("http://t/a?k=v", b'&', family_hash(2));
+    kani::cover!(true, "reached");
+}
+
+// @prop C18
+// @fn TrackerClient::create_url, url::form_urlencoded::byte_serialize
+// @bound announce url "http://t/a?k=v"; concrete hash number 12 of a 13-member family that together contains every byte value (bytes 240..255, 0..3: non-UTF-8 bytes; announce url with an existing query)
+// @outside symbolic hashes (see c18_encoder_kernel_every_byte_value); what reqwest/url do with the string afterwards (peer_id, port, left parameters; host/path parsing) is not encoded
+// @desc the request url is the announce url kept verbatim, '?' (or '&' when the announce url already has a query), "info_hash=", and a value that percent-decodes to exactly the 20 hash bytes
+#[kani::proof]
+#[kani::unwind(22)]
+fn c18_url_assembly_family_member_12() {
     url_for("http://t/a?k=v", b'&', family_hash(12));
     kani::cover!(true, "reached");
 }
@@ -119,7 +152,7 @@ fn c18_url_assembly_concrete_family_quick() {
 // @tier thorough
 // @fn TrackerClient::create_url, url::form_urlencoded::byte_serialize
 // @bound both announce urls x all 13 family hashes (every byte value occurs)
-// @desc as c18_url_assembly_concrete_family_quick over the whole family
+// @desc as c18_url_assembly_family_member_* over the whole family
 #[kani::proof]
 #[kani::unwind(22)]
 fn c18_url_assembly_concrete_family_all() {
